@@ -82,8 +82,11 @@ def modInode (l : List Inode) (i : Nat) (f : Inode → Inode) : List Inode :=
 
 /-! ### primitive operations (`Except Errno FS`: the errno the kernel itself reports) -/
 
-/-- `os.open(part, O_RDWR|O_CREAT|O_EXCL, mode)` (`excl = false`: without `O_EXCL`, an existing
-    part file is re-opened and keeps its content) -/
+/-- `os.open(part, O_RDWR|O_CREAT|O_EXCL, mode)`.  `excl = false` (without `O_EXCL`) re-opens an
+    existing part file, which keeps its content; later writes are modelled as appended to it (the
+    real overwrite-in-place from offset 0 likewise yields a mixture whenever the stale content is
+    longer).  `SafeTrace` rejects every non-exclusive open, so this branch only serves the necessity
+    witness `no_excl_breaks`. -/
 def FS.openPart (fs : FS) (excl : Bool) (mode : Nat) : Except Errno FS :=
   match fs.dir.part with
   | some i => if excl then .error EEXIST else .ok { fs with openf := some ⟨i, []⟩ }
